@@ -1,6 +1,8 @@
 import NrDaemon.Model.Trigger
 import NrDaemon.Gen.SwapTable
 import NrDaemon.Props.Tied
+import NrDaemon.Props.C12Zero
+import NrDaemon.Props.C05
 /-!
   C12 — harvest cadence follows the negotiated periods and stops cleanly.
 -/
@@ -764,3 +766,31 @@ theorem C12_isHarvestAll_tied (n : Negotiated) :
 theorem C12_checkReportPeriod_tied (period dflt : Nat) :
     ((checkReportPeriod period dflt : Nat) : Int) = Gen.Negotiation.checkReportPeriod (dflt : Int) (period : Int) :=
   tied_checkReportPeriod period dflt
+
+
+/-! ## "A category whose limit is zero is never sent" on the processor model (proofs in `Props/C12Zero.lean`) -/
+
+/-- **C12 (zero limit ⇒ never sent, per-category path).**  For every harvest content, tick mask and state: if the limit
+negotiated for an event category is zero, `harvestByType` makes no request of that category. -/
+theorem C12_zero_limit_never_sent_by_type (s : PState) (runId : String) (run : RunM) (app : AppM) (cfg : RunCfg) (mask : Nat) (a : HArgs) :
+    (cfg.limLog = 0 → ∀ r ∈ (harvestTypesPart s runId run app cfg mask a).2, r.cat ≠ Cat.logEv) ∧
+    (cfg.limSpan = 0 → ∀ r ∈ (harvestTypesPart s runId run app cfg mask a).2, r.cat ≠ Cat.spanEv) ∧
+    (cfg.limCustom = 0 → ∀ r ∈ (harvestTypesPart s runId run app cfg mask a).2, r.cat ≠ Cat.customEv) ∧
+    (cfg.limErr = 0 → ∀ r ∈ (harvestTypesPart s runId run app cfg mask a).2, r.cat ≠ Cat.errorEv) ∧
+    (cfg.limTxn = 0 → ∀ r ∈ (harvestTypesPart s runId run app cfg mask a).2, r.cat ≠ Cat.txnEv) :=
+  zeroLimit_byType s runId run app cfg mask a
+
+/-- **C12 (zero limit ⇒ never sent, combined path and final flush).**  `harvestAll` has no limit guard; it sends a
+category only if its reservoir holds something — and a reservoir built with capacity zero never does
+(`C12_zero_capacity_reservoir_empty`). -/
+theorem C12_zero_limit_never_sent_combined (s : PState) (runId : String) (run : RunM) (app : AppM) (cfg : RunCfg) (a : HArgs) :
+    (run.h.log.evs = #[] → ∀ r ∈ (harvestAllPart s runId run app cfg a).2, r.cat ≠ Cat.logEv) ∧
+    (run.h.span.evs = #[] → ∀ r ∈ (harvestAllPart s runId run app cfg a).2, r.cat ≠ Cat.spanEv) ∧
+    (run.h.custom.evs = #[] → ∀ r ∈ (harvestAllPart s runId run app cfg a).2, r.cat ≠ Cat.customEv) ∧
+    (run.h.errEv.evs = #[] → ∀ r ∈ (harvestAllPart s runId run app cfg a).2, r.cat ≠ Cat.errorEv) ∧
+    (run.h.txn.evs = #[] → ∀ r ∈ (harvestAllPart s runId run app cfg a).2, r.cat ≠ Cat.txnEv) :=
+  zeroLimit_combined s runId run app cfg a
+
+/-- a reservoir of capacity zero holds nothing after any sequence of offers, merges and hand-backs -/
+theorem C12_zero_capacity_reservoir_empty (ops : List ResOp) : (runRes 0 ops).size = 0 :=
+  Nat.le_zero.mp (C05_reservoir_bound 0 ops)
